@@ -32,9 +32,9 @@ Proof.
   rewrite lits_ok_app, !lits_ok_ids_where by apply matching_tab_pos. reflexivity.
 Qed.
 
-Lemma graph_wf_edges n es : graph_wf n es = true -> forall e, In e es -> 1 <= fst e /\ fst e < snd e /\ snd e <= n.
+Lemma graph_wf_edges n es : simple_graph_wf n es = true -> forall e, In e es -> 1 <= fst e /\ fst e < snd e /\ snd e <= n.
 Proof.
-  unfold graph_wf. intros H e He. apply andb_true_iff in H as [H _]. rewrite forallb_forall in H.
+  unfold simple_graph_wf. intros H e He. apply andb_true_iff in H as [H _]. rewrite forallb_forall in H.
   specialize (H e He). lia.
 Qed.
 
@@ -53,7 +53,7 @@ Proof.
   rewrite <- (number_fst es 0). change x with (fst (x, v)). now apply in_map.
 Qed.
 
-Theorem matching_T1 a n es : graph_wf n es = true ->
+Theorem matching_T1 a n es : simple_graph_wf n es = true ->
   (irs_hold a (matching_ir n es) = true <-> perfect_matching n (matching_sel a es)).
 Proof.
   intros Hwf. unfold matching_ir, perfect_matching, matching_sel.
@@ -149,10 +149,10 @@ Proof.
   - intros Hin. pose proof (edges_increasing_head t x H x Hin) as F. unfold edge_lt in F. lia.
   - apply IH. cbn [edges_increasing] in H. destruct t; [reflexivity|]. now apply andb_true_iff in H as [_ H].
 Qed.
-Lemma graph_wf_NoDup n es : graph_wf n es = true -> NoDup es.
-Proof. unfold graph_wf. intros H. apply andb_true_iff in H as [_ H]. now apply edges_increasing_NoDup. Qed.
+Lemma graph_wf_NoDup n es : simple_graph_wf n es = true -> NoDup es.
+Proof. unfold simple_graph_wf. intros H. apply andb_true_iff in H as [_ H]. now apply edges_increasing_NoDup. Qed.
 
-Theorem matching_T2 n es (obj : Z * Z -> bool) : graph_wf n es = true ->
+Theorem matching_T2 n es (obj : Z * Z -> bool) : simple_graph_wf n es = true ->
   perfect_matching n (filter obj es) ->
   exists a, irs_hold a (matching_ir n es) = true /\ matching_sel a es = filter obj es.
 Proof.
@@ -162,7 +162,7 @@ Proof.
   split; [|exact E]. apply matching_T1; [assumption|]. now rewrite E.
 Qed.
 
-Theorem matching_unique a b n es : graph_wf n es = true ->
+Theorem matching_unique a b n es : simple_graph_wf n es = true ->
   (forall e, In e (matching_sel a es) <-> In e (matching_sel b es)) ->
   forall v, 1 <= v <= matching_numvar es -> a v = b v.
 Proof.
@@ -196,15 +196,15 @@ Proof.
     destruct (P x y); cbn [b2z]; rewrite ?len_cons; lia.
 Qed.
 
-Lemma memz_In i S : memz i S = true <-> In i S.
+Lemma memz_In i S : block_mem i S = true <-> In i S.
 Proof.
-  unfold memz. rewrite existsb_exists. split.
+  unfold block_mem. rewrite existsb_exists. split.
   - intros [x [Hx E]]. assert (i = x) by lia. now subst.
   - intros H. exists i. split; [assumption|lia].
 Qed.
 
 Lemma count_members {l S : list Z} : NoDup l -> NoDup S -> incl S l ->
-  length (filter (fun i => memz i S) l) = length S.
+  length (filter (fun i => block_mem i S) l) = length S.
 Proof.
   intros Hl HS Hincl. apply Nat.le_antisymm.
   - apply NoDup_incl_length; [now apply NoDup_filter|]. intros x Hx. apply filter_In in Hx as [_ Hx]. now apply memz_In.
@@ -247,7 +247,7 @@ Theorem count_sat_iff M p : 0 <= M -> 1 <= p ->
 Proof.
   intros HM Hp. split.
   - intros [a Ha]. apply count_T1 in Ha. unfold partition_of in Ha. set (B := count_sel a M p) in *.
-    pose proof (double_count (fun i S => memz i S) (upto M) B) as D.
+    pose proof (double_count (fun i S => block_mem i S) (upto M) B) as D.
     rewrite (zsum_map_ext_in _ (fun _ => 1) (upto M)) in D by (intros i Hi; apply In_upto in Hi; now apply Ha).
     rewrite (zsum_map_ext_in _ (fun _ => p) B) in D.
     + rewrite !zsum_map_const, len_upto in D by assumption. exists (len B). lia.
@@ -265,7 +265,7 @@ Proof.
     assert (0 <= j) as Hj0 by (apply Z.div_pos; lia).
     assert (j < q) as Hjq by (apply Z.div_lt_upper_bound; nia).
     assert (x0 + p <= M + 1) as Hx0 by (unfold x0; nia).
-    apply (filter_unique_len (memz i) _ (zrange x0 (x0 + p))).
+    apply (filter_unique_len (block_mem i) _ (zrange x0 (x0 + p))).
     + apply NoDup_filter, count_blocks_NoDup.
     + apply filter_In. split.
       * unfold count_blocks, upto. replace (Z.to_nat p) with (Z.to_nat (x0 + p - x0)) by lia.
@@ -295,7 +295,7 @@ Proof.
   - intros [blk Hb]. destruct (count_T2 M p blk Hb) as [a [Ha _]]. eauto.
 Qed.
 
-Corollary matching_sat_iff_exists n es : graph_wf n es = true ->
+Corollary matching_sat_iff_exists n es : simple_graph_wf n es = true ->
   ((exists a, irs_hold a (matching_ir n es) = true) <-> exists obj, perfect_matching n (filter obj es)).
 Proof.
   intros Hwf. split.
